@@ -374,6 +374,7 @@ class Extractor:
         self.vc = vc
         self.rules = []        # applied rewrite rules: dicts
         self.warnings = []
+        self.stubbed = []
         self.dropped = []
         self.functions = []    # dicts: name, file, line, contracted, tags
         self.used_fnspecs = set()
@@ -480,7 +481,7 @@ class Extractor:
         elif k == 'impl':
             self.emit_impl(sf, it)
         elif k == 'fn':
-            self.emit_fn(sf, it, prefix, indent='')
+            self.emit_fn_guarded(sf, it, prefix, indent='')
         elif k == 'mod':
             raise Unsupported("module %s not supported" % it.name)
         else:
@@ -759,7 +760,7 @@ class Extractor:
                     self.dropped.append({'item': 'fn ' + q, 'file': sf.rel, 'line': sf.line_of(sub.start), 'reason': reason})
                     self.rule('R2', sf.rel, sf.line_of(sub.start), 'drop fn %s (%s)' % (q, reason))
                     continue
-                self.emit_fn(sf, sub, prefix, indent='    ', self_error=None)
+                self.emit_fn_guarded(sf, sub, prefix, indent='    ', self_error=None)
             elif sub.kind == 'type' and drop_assoc_types:
                 self.rule('R3', sf.rel, sf.line_of(sub.start), 'drop associated type %s' % sub.name)
                 toks = [e for e in sub.elems]
@@ -773,7 +774,34 @@ class Extractor:
                 raise Unsupported("impl member %s not supported" % sub.kind)
         self.out.add("}", {'kind': 'src', 'file': sf.rel, 'line': sf.line_of(it.end - 1)})
 
-    def emit_fn(self, sf, it, prefix, indent='', self_error=None):
+    def emit_fn_guarded(self, sf, it, prefix, indent='', self_error=None):
+        """emit_fn; when the body of a CONTRACTED function is outside the grammar of the rewrite rules (a rewrite pattern is no longer there, a lost loop / closure anchor),
+        the function alone is emitted as a stub - contract kept, body not verified - and marked `extraction_failed`: its obligations count as not generated (undecided for the
+        properties that depend on it), the rest of the unit is still verified."""
+        marks = (len(self.out.lines), len(self.out.origin), len(self.functions), len(self.rules), len(self.warnings))
+        forced = (self.vc.defines.get('stub_fns') or {})
+        if (prefix + it.name) in forced and self.vc.fns.get(prefix + it.name) is not None and not getattr(self, 'as_base', False):
+            # the verifier's front end rejected this function in an earlier pass of this run (e.g. a hint names a local that no longer exists): stub it, keep the rest
+            self.emit_fn(sf, it, prefix, indent=indent, self_error=self_error, stub=True)
+            self.functions[-1]['extraction_failed'] = forced[prefix + it.name]
+            self.stubbed.append({'fn': prefix + it.name, 'reason': forced[prefix + it.name]})
+            return
+        try:
+            return self.emit_fn(sf, it, prefix, indent=indent, self_error=self_error)
+        except Unsupported as e:
+            q = prefix + it.name
+            if self.vc.fns.get(q) is None or getattr(self, 'as_base', False):
+                raise
+            del self.out.lines[marks[0]:]
+            del self.out.origin[marks[1]:]
+            del self.functions[marks[2]:]
+            del self.rules[marks[3]:]
+            del self.warnings[marks[4]:]
+            self.emit_fn(sf, it, prefix, indent=indent, self_error=self_error, stub=True)
+            self.functions[-1]['extraction_failed'] = str(e)
+            self.stubbed.append({'fn': q, 'reason': str(e)})
+
+    def emit_fn(self, sf, it, prefix, indent='', self_error=None, stub=False):
         src = sf.src
         q = prefix + it.name
         spec = self.vc.fns.get(q)
@@ -786,6 +814,8 @@ class Extractor:
             raise Unsupported("function %s without body" % q)
         finfo['skeleton'] = hashlib.sha256(skeleton(it.body).encode()).hexdigest()[:16]
         finfo['skeleton_text'] = skeleton(it.body)[:4000]
+        sig_src = src[it.kw_start:it.body.start]
+        finfo['readonly'] = ('&self' in sig_src.replace(' ', '')) and ('&mut' not in sig_src)
         edits = []
         for (s, e, text) in it.attrs:
             edits.append((s, e, '', None))
@@ -802,18 +832,19 @@ class Extractor:
             if t.text == 'Self' and i + 2 < len(toks) and toks[i + 1].text == '::' and (prefix[:-2], toks[i + 2].text) in assoc:
                 edits.append((t.start, toks[i + 2].end, assoc[(prefix[:-2], toks[i + 2].text)], {'kind': 'rule', 'rule': 'R3'}))
         origin_fn = lambda p, ln: {'kind': 'vc', 'file': p, 'line': ln, 'fn': q, 'tags': tags}
-        if getattr(self, 'as_base', False):
+        if getattr(self, 'as_base', False) or stub:
             # base unit: the function is proved in its own unit; here only its contract is visible (body skipped by the verifier)
             edits.append((it.kw_start, it.kw_start, '#[verifier::external_body]\n' + indent, {'kind': 'gen'}, -6))
+        base = getattr(self, 'as_base', False) or stub
         body = Body(it.body)
-        self.loop_guard_edits(sf, body, edits, q)
-        base = getattr(self, 'as_base', False)
+        if not stub:
+            self.loop_guard_edits(sf, body, edits, q)
         if spec is not None and spec.iter_rewrites and not base:
             self.for_index_edits(sf, body, spec, edits, q)
         if spec is not None:
             for at in spec.attrs:
                 edits.append((it.kw_start, it.kw_start, at + '\n' + indent, {'kind': 'gen'}, -5))
-            if spec.external_body and not getattr(self, 'as_base', False):
+            if spec.external_body and not base:
                 edits.append((it.kw_start, it.kw_start, '#[verifier::external_body]\n' + indent, {'kind': 'gen'}, -5))
                 finfo['external_body'] = True
             # named return value
@@ -841,7 +872,7 @@ class Extractor:
                     edits.append((it.body.start, it.body.start, xt + '\n' + indent, origin_fn(xp, xl), -1.9 + k * 0.01))
             if not base:
                 self.anchor_edits(sf, it, body, spec, edits, q, origin_fn)
-            if self.vc.defines.get('canary') and spec.sig and not spec.external_body:
+            if self.vc.defines.get('canary') and spec.sig and not spec.external_body and not base:
                 # vacuity canary: with the function's preconditions in force `false` must NOT be provable at entry
                 edits.append((it.body.open.end, it.body.open.end, '\n        proof { assert(false); } // [canary]\n', {'kind': 'canary', 'fn': q}, -9))
                 finfo['canary'] = True
@@ -1248,7 +1279,7 @@ def build_unit(repo, vcpath, outdir, defines=None, variant=None):
     with open(rs, 'w') as f:
         f.write(text)
     meta = {
-        'unit': name, 'vc': vcpath, 'sources': vc.sources, 'rules': ex.rules, 'warnings': ex.warnings, 'dropped': ex.dropped,
+        'unit': name, 'vc': vcpath, 'sources': vc.sources, 'rules': ex.rules, 'warnings': ex.warnings, 'stubbed': getattr(ex, 'stubbed', []), 'dropped': ex.dropped,
         'functions': ex.functions, 'base_functions': getattr(ex, 'base_functions', []), 'module': vc.module,
         'origin': ex.out.origin, 'sha256': hashlib.sha256(text.encode()).hexdigest(),
     }
